@@ -31,7 +31,7 @@ var c16SourceFaults = map[string][]string{
 	"start-without-end":    {"##!> assemble\nfoo", "##!> assemble\n##!> assemble\nfoo\n##!<", "##!> cmdline unix\nls"},
 	"unknown-stored-name":  {"##!=> nosuchname"},
 	"missing-store-name":   {"##!=<"},
-	"unsupported-flag":     {"##!+ x", "##!+ im"},
+	"unsupported-flag":     {"##!+ x", "##!+ im", "##!+ i1", "##!+ i,s", "##!+ ?", "##!+ i s", "##!+ i-s", "##!+ I"},
 	"odd-replacement-list": {"##!> include inc1 -- a", "##!> include-except inc1 exc1 -- a b c"},
 	"flags-in-include":     {"##!+ i"},
 }
@@ -134,7 +134,8 @@ func c16Check(env *core.Env, cc core.Case) core.Verdict {
 		case "no-rules-file":
 			delete(tree, ft.File.path())
 		case "two-rules-files":
-			tree["rules/RESPONSE-"+ft.File.prefix()+"-DUPLICATE.conf"] = tree[ft.File.path()]
+			dup := []string{"rules/RESPONSE-" + ft.File.prefix() + "-DUPLICATE.conf", "rules/REQUEST-" + ft.File.prefix() + "-APPLICATION-ATTACK.bak", "rules/.REQUEST-" + ft.File.prefix() + "-X.conf.swp", "rules/#REQUEST-" + ft.File.prefix() + "-X.conf#", "rules/A-" + ft.File.prefix() + "-copy.conf.orig"}[(idx+len(p.Tests))%5]
+			tree[dup] = tree[ft.File.path()]
 		case "operator-not-rx":
 			found := false
 			for _, r := range ft.File.Rules {
